@@ -1958,3 +1958,231 @@ Proof.
   destruct (R ops (pcomp_init p0) [] eq_refl) as (cops & E). subst s. rewrite E.
   exact (s_comp_pool_props r p0 Hs cops).
 Qed.
+
+(* ====================================================================== a restart rebuilds exactly what the store says *)
+Lemma cons_eq_inv {A} (x y : A) l l' : x :: l = y :: l' -> x = y /\ l = l'.
+Proof. intros H. inversion H. auto. Qed.
+Lemma findi_static ip l1 : forall l2, map static l1 = map static l2 ->
+  findi (fun a => a_ip a =? ip) l1 = findi (fun a => a_ip a =? ip) l2.
+Proof.
+  induction l1 as [|x l1 IH]; intros [|y l2] E; cbn [map] in E; try discriminate; cbn [findi]; [reflexivity|].
+  apply cons_eq_inv in E. destruct E as [E1 E2].
+  assert (HIP : a_ip x = a_ip y) by (unfold static in E1; congruence).
+  rewrite HIP. destruct (a_ip y =? ip); [reflexivity|]. rewrite (IH l2 E2). reflexivity.
+Qed.
+Lemma nth_static l1 : forall l2 i a1, map static l1 = map static l2 -> nth_error l1 i = Some a1 ->
+  exists a2, nth_error l2 i = Some a2 /\ static a1 = static a2.
+Proof.
+  induction l1 as [|x l1 IH]; intros [|y l2] [|i] a1 E H; cbn [map nth_error] in *; try discriminate;
+    apply cons_eq_inv in E; destruct E as [E1 E2].
+  - injection H as <-. eauto.
+  - eauto.
+Qed.
+Lemma faddr_findi_conv l ip a : faddr l ip = Some a -> exists i, findi (fun a => a_ip a =? ip) l = Some i /\ nth_error l i = Some a.
+Proof.
+  unfold faddr. induction l as [|x l IH]; simpl; intros H; [discriminate|].
+  destruct (a_ip x =? ip); [inversion H; subst; exists O; auto|].
+  destruct (IH H) as (i & F & N). exists (S i). rewrite F. auto.
+Qed.
+Lemma in_upd_nth {A} (f : A -> A) l : forall i x, In x (upd_nth i f l) ->
+  (exists a, nth_error l i = Some a /\ x = f a) \/ In x l.
+Proof.
+  induction l as [|y l IH]; intros [|i] x H; simpl in *; try contradiction.
+  - destruct H as [<-|H]; [left; eauto|right; auto].
+  - destruct H as [<-|H]; [right; auto|]. destruct (IH i x H) as [L|R]; [left; exact L|right; auto].
+Qed.
+
+Section Restart.
+  Variable c : cfg.
+  Variable st : list (N * N * bool * nat).
+  Hypothesis W : wf c.
+  Hypothesis WS : wfst c st.
+
+  (* pn, the pool being rebuilt, holds only blocks po held, without repetition, and every set bit has an owner *)
+  Record Sub (po pn : pool) : Prop := {
+    sb_incl : forall k b, In b (blocks_of pn k) -> In b (blocks_of po k);
+    sb_nodup : forall k, NoDup (blocks_of pn k);
+    sb_own : forall a idx, In a (p_addrs pn) -> test_bit (a_bits a) idx = true ->
+             exists k b, In b (blocks_of pn k) /\ b_ip b = a_ip a /\ idx_of c (b_start b) = idx }.
+
+  Lemma holds_block_false_notin bl b : holds_block bl b = false -> ~ In b bl.
+  Proof.
+    intros H Hin. assert (holds_block bl b = true); [|congruence].
+    unfold holds_block. apply existsb_exists. exists b. split; [exact Hin|]. rewrite !N.eqb_refl. reflexivity.
+  Qed.
+
+  (* restoring a block the old pool's subscriber k held is always accepted by the pool being rebuilt *)
+  Lemma restore_accepts po pn k b : Inv c st po -> Inv c st pn -> Sub po pn -> In b (blocks_of po k) ->
+    exists p', restore_repaired c pn k b true = Some p' /\ Inv c st p' /\ Sub po p' /\ In b (blocks_of p' k) /\
+               (forall k' b', In b' (blocks_of p' k') -> In b' (blocks_of pn k') \/ (k' = k /\ b' = b)) /\
+               (forall k' b', In b' (blocks_of pn k') -> In b' (blocks_of p' k')).
+  Proof.
+    intros Io In_ [SI SN SO] Hb.
+    destruct (i_blk _ _ _ Io _ _ Hb) as (ao & Fo & Xo & So & Eo & _).
+    destruct (faddr_findi_conv _ _ _ Fo) as (i & Fi & Ni).
+    assert (ST : map static (p_addrs po) = map static (p_addrs pn)) by (rewrite (i_static _ _ _ Io), (i_static _ _ _ In_); reflexivity).
+    destruct (nth_static _ _ _ _ ST Ni) as (an & Nn & SA).
+    assert (Xn : a_excl an = false) by (unfold static in SA; inversion SA; congruence).
+    assert (IPn : a_ip an = b_ip b).
+    { unfold static in SA; inversion SA. apply faddr_some in Fo. destruct Fo; congruence. }
+    destruct (inv_addr _ _ _ an WS In_ (nth_error_In _ _ Nn)) as [Tn _].
+    pose proof (restore_repaired_inv c st pn k b true) as RI.
+    unfold restore_repaired in *. rewrite <- (findi_static (b_ip b) _ _ ST), Fi, Nn, Xn, Tn, So in *. cbn [negb] in *.
+    rewrite Eo, N.eqb_refl in *. cbn [negb andb] in *.
+    destruct (holds_block (blocks_of pn k) b) eqn:HB.
+    - exists pn. split; [reflexivity|]. split; [exact In_|]. split; [constructor; auto|].
+      split; [eapply holds_block_in; eauto|]. split; auto.
+    - cbn [negb andb] in *.
+      assert (Hclr : test_bit (a_bits an) (idx_of c (b_start b)) = false).
+      { destruct (test_bit (a_bits an) (idx_of c (b_start b))) eqn:T; [|reflexivity]. exfalso.
+        destruct (SO an _ (nth_error_In _ _ Nn) T) as (k1 & b1 & H1 & E1 & E2).
+        pose proof (SI _ _ H1) as H1o.
+        destruct (i_blk _ _ _ Io _ _ H1o) as (_ & _ & _ & S1 & _).
+        pose proof (start_ok_inj c _ _ W S1 So E2) as ES.
+        assert (k1 = k) by (eapply (i_excl _ _ _ Io); eauto; congruence). subst k1.
+        apply (holds_block_false_notin _ _ HB).
+        destruct (i_blk _ _ _ Io _ _ H1o) as (_ & _ & _ & _ & E1o & _).
+        assert (b1 = b) by (apply block_eq; congruence). subst. exact H1. }
+      rewrite Hclr in *.
+      assert (NI : ~ In b (blocks_of pn k)) by (apply holds_block_false_notin; exact HB).
+      assert (LIM : limit_reached c pn k = false).
+      { unfold limit_reached. destruct (sub_get k (p_subs pn)) as [bl|] eqn:G; [|reflexivity].
+        assert (EB : blocks_of pn k = bl) by (unfold blocks_of; rewrite G; reflexivity).
+        apply N.leb_gt.
+        assert (L : (length (b :: bl) <= length (blocks_of po k))%nat).
+        { apply NoDup_incl_length.
+          - constructor; [rewrite <- EB; exact NI|rewrite <- EB; apply SN].
+          - intros x [<-|Hx]; [exact Hb|]. apply SI. rewrite EB. exact Hx. }
+        pose proof (i_limit _ _ _ Io k). simpl in L. lia. }
+      rewrite LIM in *.
+      assert (PAIR : c_paired c && match blocks_of pn k with b0 :: _ => negb (b_ip b0 =? b_ip b) | [] => false end = false).
+      { destruct (c_paired c) eqn:P; [|reflexivity]. simpl. destruct (blocks_of pn k) as [|b0 r0] eqn:B; [reflexivity|].
+        apply negb_false_iff, N.eqb_eq. apply (i_paired _ _ _ Io P k); [apply SI; rewrite B; simpl; auto|exact Hb]. }
+      rewrite PAIR in *.
+      eexists. split; [reflexivity|].
+      specialize (RI _ W WS In_ eq_refl).
+      split; [exact RI|].
+      split; [|split; [|split]].
+      + constructor.
+        * intros k' b'. rewrite blocks_of_add. destruct (N.eqb_spec k' k) as [->|]; [|apply SI].
+          intros H. apply in_app_or in H. destruct H as [H|[<-|[]]]; auto.
+        * intros k'. rewrite blocks_of_add. destruct (N.eqb_spec k' k) as [->|]; [|apply SN].
+          apply NoDup_app_single. split; [apply SN|exact NI].
+        * intros a idx Ha T. cbn [add_block p_addrs] in Ha.
+          destruct (in_upd_nth _ _ _ _ Ha) as [(a0 & N0 & ->)|Hin].
+          -- rewrite Nn in N0. inversion N0; subst a0. cbn [with_bits a_bits a_ip] in *.
+             rewrite test_set_bit in T. apply orb_true_iff in T. destruct T as [T|T].
+             ++ apply andb_true_iff in T. destruct T as [_ T]. apply N.eqb_eq in T.
+                exists k, b. rewrite blocks_of_add, N.eqb_refl. split; [apply in_or_app; simpl; auto|]. split; [congruence|exact T].
+             ++ destruct (SO an idx (nth_error_In _ _ Nn) T) as (k1 & b1 & H1 & E1 & E2).
+                exists k1, b1. rewrite blocks_of_add. split; [|auto].
+                destruct (N.eqb_spec k1 k) as [->|]; [apply in_or_app|]; auto.
+          -- destruct (SO a idx Hin T) as (k1 & b1 & H1 & E1 & E2).
+             exists k1, b1. rewrite blocks_of_add. split; [|auto].
+             destruct (N.eqb_spec k1 k) as [->|]; [apply in_or_app|]; auto.
+      + rewrite blocks_of_add, N.eqb_refl. apply in_or_app. simpl; auto.
+      + intros k' b'. rewrite blocks_of_add. destruct (N.eqb_spec k' k) as [->|]; [|auto].
+        intros H. apply in_app_or in H. destruct H as [H|[<-|[]]]; auto.
+      + intros k' b' H. rewrite blocks_of_add. destruct (N.eqb_spec k' k) as [->|]; [apply in_or_app|]; auto.
+  Qed.
+
+  Lemma existsb_sess_add sid l : existsb (N.eqb sid) (sess_add sid l) = true.
+  Proof.
+    unfold sess_add. destruct (existsb (N.eqb sid) l) eqn:E; [exact E|].
+    rewrite existsb_app. simpl. rewrite N.eqb_refl. apply orb_true_r.
+  Qed.
+  Lemma existsb_sess_add_mono sid sid' l : existsb (N.eqb sid) l = true -> existsb (N.eqb sid) (sess_add sid' l) = true.
+  Proof.
+    unfold sess_add. intros H. destruct (existsb (N.eqb sid') l); [exact H|]. rewrite existsb_app, H. reflexivity.
+  Qed.
+
+  (* the restore loop over the store *)
+  Lemma restart_fold po d order : Inv c st po ->
+    (forall sid k b, db_get sid d = Some (k, b) -> In b (blocks_of po k)) ->
+    forall s, Inv c st (cp_pool s) -> Sub po (cp_pool s) ->
+    let s' := crun repaired c s (restart_ops d order) in
+    Inv c st (cp_pool s') /\ Sub po (cp_pool s') /\
+    (forall k b, In b (blocks_of (cp_pool s) k) -> In b (blocks_of (cp_pool s') k)) /\
+    (forall sid, existsb (N.eqb sid) (cp_sess s) = true -> existsb (N.eqb sid) (cp_sess s') = true) /\
+    (forall sid k b, In sid order -> db_get sid d = Some (k, b) ->
+       In b (blocks_of (cp_pool s') k) /\ existsb (N.eqb sid) (cp_sess s') = true) /\
+    (forall k b, In b (blocks_of (cp_pool s') k) ->
+       In b (blocks_of (cp_pool s) k) \/ exists sid, In sid order /\ db_get sid d = Some (k, b)).
+  Proof.
+    intros Io DS. induction order as [|sid order IH]; intros s In_ SB; cbn [restart_ops flat_map].
+    - unfold crun; simpl. split; [exact In_|]. split; [exact SB|]. split; [auto|]. split; [auto|].
+      split; [intros sd k b []|]. intros k b H. left; exact H.
+    - destruct (db_get sid d) as [[k b]|] eqn:G.
+      + cbn [app]. unfold crun. cbn [fold_left]. fold (crun repaired c).
+        destruct (restore_accepts po (cp_pool s) k b Io In_ SB (DS _ _ _ G)) as (p' & R & I' & S' & Hb' & Hnew & Hgrow).
+        assert (STEP : fst (cstep repaired c s (CRestorePresent sid k b 0 None)) = commit_mapping repaired s p' sid k b).
+        { cbn [cstep]. simpl (negb (0 =? 0)). cbv iota. unfold restore; cbn [repaired v_validate]. rewrite R. reflexivity. }
+        rewrite STEP.
+        destruct (IH (commit_mapping repaired s p' sid k b) I' S') as (I2 & S2 & G2 & SS2 & A2 & B2).
+        cbn [commit_mapping cp_pool cp_sess] in *.
+        split; [exact I2|]. split; [exact S2|]. split; [intros; apply G2, Hgrow; auto|].
+        split; [intros sd H; apply SS2, existsb_sess_add_mono; exact H|]. split.
+        * intros sd k1 b1 [<-|Hin] G1.
+          -- rewrite G in G1. inversion G1; subst. split; [apply G2; exact Hb'|apply SS2, existsb_sess_add].
+          -- apply A2; auto.
+        * intros k1 b1 H. destruct (B2 _ _ H) as [H1|(sd & Hi & Gd)].
+          -- destruct (Hnew _ _ H1) as [Ho|[-> ->]]; [left; exact Ho|right; exists sid; simpl; auto].
+          -- right. exists sd. simpl; auto.
+      + cbn [app]. destruct (IH s In_ SB) as (I2 & S2 & G2 & SS2 & A2 & B2).
+        split; [exact I2|]. split; [exact S2|]. split; [exact G2|]. split; [exact SS2|]. split.
+        * intros sd k1 b1 [<-|Hin] G1; [congruence|apply A2; auto].
+        * intros k1 b1 H. destruct (B2 _ _ H) as [H1|(sd & Hi & Gd)]; [left; exact H1|right; exists sd; simpl; auto].
+  Qed.
+End Restart.
+
+Lemma test_bit_zeros n idx : test_bit (repeat 0 n) idx = false.
+Proof.
+  unfold test_bit. destruct (nth_in_or_default (word_of idx) (repeat 0 n) 0) as [H|H].
+  - apply repeat_spec in H. rewrite H. apply N.bits_0.
+  - rewrite H. apply N.bits_0.
+Qed.
+
+Definition store_sound (ps : pcomp) : Prop :=
+  forall sid k b, db_get sid (pc_db ps) = Some (k, b) -> In b (blocks_of (cp_pool (pc_comp ps)) k).
+
+(* A restart rebuilds exactly the ownership the store records: every listed record is held again by its subscriber
+   and its session is committed again; nothing else is held. *)
+Lemma restart_restores_store r p0 ops order : setup repaired r = Some p0 ->
+  let c := effective r in
+  let ps := prun repaired c p0 (pcomp_init p0) ops in
+  store_sound ps ->
+  let ps' := pstep repaired c p0 ps (PRestart order) in
+  (forall sid k b, In sid order -> db_get sid (pc_db ps) = Some (k, b) ->
+     In b (blocks_of (cp_pool (pc_comp ps')) k) /\ existsb (N.eqb sid) (cp_sess (pc_comp ps')) = true) /\
+  (forall k b, In b (blocks_of (cp_pool (pc_comp ps')) k) ->
+     exists sid, In sid order /\ db_get sid (pc_db ps) = Some (k, b) /\ In b (blocks_of (cp_pool (pc_comp ps)) k)) /\
+  pc_db ps' = pc_db ps.
+Proof.
+  intros Hs c ps SS ps'. destruct (setup_ok r p0 Hs) as [Hr Hc].
+  destruct (configure_inv r p0 Hr Hc) as (W & WS & I0). fold c in W, WS, I0.
+  set (st := map static (p_addrs p0)) in *.
+  (* the pool before the restart is reachable, hence satisfies the invariant *)
+  assert (Io : Inv c st (cp_pool (pc_comp ps))).
+  { assert (R : forall ops0 s0 l, pc_comp s0 = crun repaired c (comp_init p0) l ->
+                exists cops, pc_comp (prun repaired c p0 s0 ops0) = crun repaired c (comp_init p0) cops).
+    { unfold prun. induction ops0 as [|o ops0 IH]; intros s0 l E; simpl; [eauto|]. destruct o as [co|od].
+      - apply (IH _ (l ++ [co])). cbn [pstep pc_comp]. rewrite E, crun_app. reflexivity.
+      - apply (IH _ (restart_ops (pc_db s0) od)). reflexivity. }
+    destruct (R ops (pcomp_init p0) [] eq_refl) as (cops & E). subst ps. rewrite E.
+    destruct (crun_refines repaired c cops (comp_init p0)) as (pops & E2). rewrite E2. cbn [comp_init cp_pool].
+    apply run_inv; auto. }
+  assert (E0 : forall k, blocks_of p0 k = []) by (eapply configure_empty; eauto).
+  assert (SB0 : Sub c (cp_pool (pc_comp ps)) (cp_pool (comp_init p0))).
+  { cbn [comp_init cp_pool]. constructor.
+    - intros k b H. rewrite E0 in H. contradiction.
+    - intros k. rewrite E0. constructor.
+    - intros a idx Ha T. exfalso. unfold configure in Hc. destruct (c_bs (effective r) =? 0); [discriminate|].
+      inversion Hc as [Hp]. rewrite <- Hp in Ha. cbn [p_addrs] in Ha. apply in_map_iff in Ha. destruct Ha as (ip & <- & _).
+      cbn [a_bits] in T. rewrite test_bit_zeros in T. discriminate. }
+  destruct (restart_fold c st W WS (cp_pool (pc_comp ps)) (pc_db ps) order Io SS (comp_init p0) I0 SB0)
+    as (_ & S' & _ & _ & A & B).
+  subst ps'. cbn [pstep pc_comp pc_db]. split; [exact A|]. split; [|reflexivity].
+  intros k b H. destruct (B _ _ H) as [H0|(sid & Hi & G)].
+  - cbn [comp_init cp_pool] in H0. rewrite E0 in H0. contradiction.
+  - exists sid. split; [exact Hi|]. split; [exact G|]. apply SS with (sid := sid). exact G.
+Qed.
